@@ -6,12 +6,12 @@ package sim
 import (
 	"bytes"
 	"fmt"
+	"math/rand"
 	"os"
+	"sort"
 	"strconv"
 	"sync"
 	"sync/atomic"
-	"math/rand"
-	"sort"
 	"time"
 
 	appsv1 "k8s.io/api/apps/v1"
@@ -43,23 +43,23 @@ type NodeBehaviour struct {
 
 // World is one simulated cluster.
 type World struct {
-	S      *simapi.Store
-	Ctl    *kit.Controllers
-	R      *rand.Rand
-	Ctx    *core.Ctx
-	Mon    *Monitors
-	User   *simapi.Client
-	Behav  map[string]*NodeBehaviour
-	Coop   bool // cooperative kubelet: ignore hostile knobs
-	Trace  []string
-	Steps  int
+	S        *simapi.Store
+	Ctl      *kit.Controllers
+	R        *rand.Rand
+	Ctx      *core.Ctx
+	Mon      *Monitors
+	User     *simapi.Client
+	Behav    map[string]*NodeBehaviour
+	Coop     bool // cooperative kubelet: ignore hostile knobs
+	Trace    []string
+	Steps    int
 	MaxTrace int
 	// EDS under observation (ns/name) in creation order
 	EDSKeys [][2]string
 	// Mode tag recorded in invocations
 	Mode string
 	// activity counters for fixpoint detection
-	podRSWrites int
+	podRSWrites     int
 	faultsSuspended int
 	// N mode
 	hookMu     sync.Mutex
